@@ -539,7 +539,7 @@ package mcp
 //@   end
 //@   before call Flush#1 assert[C11 stream-registered-before-its-headers-are-flushed] (session.GetID() in h.getSSEConnections) && h.getSSEConnections[session.GetID()] == conn && held(conn.writeLock) == 2
 //@   before call (*sync.RWMutex).Unlock#1 assert[C11 registration-replaces-only-this-session] forall k string :: k != session.GetID() ==> ((k in h.getSSEConnections) <==> atlock(k in h.getSSEConnections)) && h.getSSEConnections[k] == atlock(h.getSSEConnections[k])
-//@   before call (*sync.RWMutex).Unlock#2 assert[C11 a-stream-that-ends-removes-only-itself] forall k string :: (k != session.GetID() || atlock(h.getSSEConnections[k]) != conn) ==> ((k in h.getSSEConnections) <==> atlock(k in h.getSSEConnections)) && h.getSSEConnections[k] == atlock(h.getSSEConnections[k])
+//@   before call (*sync.RWMutex).Unlock#2 assert[C11,C05 a-stream-that-ends-removes-only-itself] forall k string :: (k != session.GetID() || atlock(h.getSSEConnections[k]) != conn) ==> ((k in h.getSSEConnections) <==> atlock(k in h.getSSEConnections)) && h.getSSEConnections[k] == atlock(h.getSSEConnections[k])
 
 // Configuration of the HTTP handler is fixed once the handler is built (C13: no request path can park
 // request-derived state in it; C03/C04: the mode flags do not change under a request).
@@ -1299,4 +1299,8 @@ package mcp
 //@   frozen[C13] except promptsOrder
 //@ type resourceManager
 //@   frozen[C13] except resourcesOrder
+//@
+// C12 — user code (handlers, filters, hooks) runs with no registry lock held: it may register or
+// unregister from inside, and a slow handler must not stall writers
+//@ sweepscope[C12] kinds=unlockedcallbacks files=manager_tools.go,manager_prompt.go,manager_resource.go,manager_lifecycle.go,handler.go,server.go,sse_server.go,stdio_server.go,streamable_server.go
 //@
